@@ -1,12 +1,14 @@
 """Shared harness for C04/C05: run one ``with atomic_save(...)`` workload against simfs
 under a plan (crash point and/or faults) and report what happened."""
+import os
 import random
 
 from engines import simfs
 from simkit.core import Unsimulated as core_Unsimulated
 
 fu = None        # boltons.fileutils
-DIR = '/sim/dir'
+DIR = "/sim/dir"
+_VERIF_ROOT = os.path.dirname(os.path.dirname(os.path.abspath(__file__)))
 
 
 class BodyError(Exception):
@@ -41,7 +43,8 @@ def fresh_module():
     import fcntl as _real_fcntl
     fu.os = _real_os
     fu.fcntl = _real_fcntl
-    fu.__dict__.pop('open', None)
+    for name in ('open', 'shutil', 'tempfile'):
+        fu.__dict__.pop(name, None)
     importlib.reload(fu)
 
 
@@ -109,6 +112,11 @@ def run_save(case, plan=None, log=None, hooks=None, fs=None, only_warmup=False):
     fu.os = simos
     fu.fcntl = simfs.SimFcntl(sim)
     fu.open = simfs.make_builtin_open(simos)
+    # names a re-implementation might reach for (shutil.* are module globals of fileutils already)
+    shim = simfs.SimShutil(simos)
+    fu.shutil = shim
+    fu.copy2, fu.copystat = shim.copy2, shim.copystat
+    fu.tempfile = simfs.SimTempfile(simos)
     for kind, e in (case.get('env') or {}).items():
         sim.persistent[kind] = ('errno', e)
     r = Result()
@@ -175,6 +183,14 @@ def run_save(case, plan=None, log=None, hooks=None, fs=None, only_warmup=False):
             # the path exists in the simulated file system but the REAL kernel was asked about it
             sim.dispose()
             raise core_Unsimulated('the code under test touched the real file system at simulated path %s' % fn)
+        lastfile = last.tb_frame.f_code.co_filename if last is not None else ''
+        if (isinstance(e, OSError) and isinstance(fn, str) and fn.startswith(DIR) and not raised_by_simfs
+                and not lastfile.startswith(_VERIF_ROOT) and '/boltons/' not in lastfile):
+            # an OS error about a simulated path raised from inside the standard library (a locally
+            # imported tempfile / shutil / pathlib ...): the real kernel was asked
+            sim.dispose()
+            raise core_Unsimulated('the code under test reached the real file system through %s at simulated path %s'
+                                   % (os.path.basename(lastfile), fn))
     finally:
         sim.dispose()
     return r
@@ -359,8 +375,10 @@ def run_real(case):
         rec = _RecOS()
         fu.os = rec
         fu.fcntl = real_fcntl
-        if 'open' in fu.__dict__:
-            del fu.__dict__['open']
+        import shutil as _sh
+        fu.copy2, fu.copystat = _sh.copy2, _sh.copystat
+        for name in ('open', 'shutil', 'tempfile'):
+            fu.__dict__.pop(name, None)
         exc = None
         try:
             with fu.atomic_save(dest_name if case.get('dest_rel') else dest_abs, **kwargs_of(case)) as f:
@@ -466,6 +484,10 @@ def real_crash_enumeration(case, max_points=40):
                     dy.path.lexists = lex
                     fu.os = dy
                     fu.fcntl = real_fcntl
+                    import shutil as _sh
+                    fu.copy2, fu.copystat = _sh.copy2, _sh.copystat
+                    for name in ('open', 'shutil', 'tempfile'):
+                        fu.__dict__.pop(name, None)
                     with fu.atomic_save(dest_name if case.get('dest_rel') else dest_abs, **kwargs_of(case)) as f:
                         for step in case['body']:
                             if step[0] == 'write':
